@@ -245,14 +245,15 @@ def run_stream(res, work, tier, seed):
     n_long = 0
     for st in longs_r:
         for block in ((-1, 131072) if tier == "quick" else (-1, 65536, 65537, 131072, 1 << 20)):
-            for sched in ([], [3000]):
+            for sched in (([], [3000]) if tier == "quick" else ([rng.choice([[], [3000], [65536]])])):
                 rid += 1
                 runs.append({"run": rid, "cfg": {"kind": "reader", "stream": st, "block": block, "sched": sched,
                                                  "max": rng.choice([-1, 70000]), "limit": -1}, "ops": []})
     for st in longs:
         for block in ([65536, -1, 131072] if tier == "quick" else [4096, 65536, 65537, 131072, -1, 1 << 20]):
             scheds = [[], [3000], [65536], [65535, 0, 1], [4096, 0]]
-            for sched in ([rng.choice(scheds)] if tier == "quick" else scheds):
+            # (each of these runs is 140 KB of trace: a sample of the schedules per block size, not the product)
+            for sched in ([rng.choice(scheds)] if tier == "quick" else rng.sample(scheds, 2)):
                 rid += 1
                 n_long += 1
                 runs.append({"run": rid, "cfg": {"kind": "chunker", "stream": st, "block": block, "sched": sched,
